@@ -274,7 +274,9 @@ def newCore (lk : Leaks) (fl : NFlags) (st : NSt) (t : NType)
   let trans : String → String := if fl.tagcase = "pascal" then Transfer.pascalS else if fl.tagcase = "lower" then Transfer.lowerS
     else if fl.tagcase = "upper" then Transfer.upperS else Transfer.camelS
   let tagOf := fun (f : Ctor.Field) => if f.jsonTag ≠ "" then f.jsonTag else trans f.name
-  let needJSON := fl.json && (vis.any (fun f => exported f.name && f.jsonTag = "" && trans f.name ≠ f.name) || !jget.isEmpty || !jset.isEmpty)
+  -- 946fee5: an unshadowed embedded-struct entry also asks for the type's own JSON methods (an embedded shoot type's would be promoted)
+  let needJSON := fl.json && (vis.any (fun f => exported f.name && f.jsonTag = "" && trans f.name ≠ f.name) || !jget.isEmpty || !jset.isEmpty
+    || fields.any (fun f => f.isEmbeded && !f.isShadowed))
   let jsonList := vis.filter (fun f => exported f.name || jget.contains f.name || jset.contains f.name)
   let hasG := fl.getset && (!getE.isEmpty || !getList.isEmpty)
   let hasS := fl.getset && (!setE.isEmpty || !setList.isEmpty)
